@@ -434,8 +434,9 @@ def Engine.handleUser (e : Engine) (ev : UserEvent) : Engine × Res :=
 /-- `create_connect` -/
 def Engine.createConnectBase (e : Engine) : Connect :=
   let c := e.cfg.connect.toPacket e.hasConnected
-  match c.clientId, e.settings with
-  | none, some s => { c with clientId := some s.clientId }
+  -- an empty client id asks the server to assign one, just like no client id at all
+  match (c.clientId.getD []).isEmpty, e.settings with
+  | true, some s => { c with clientId := some s.clientId }
   | _, _ => c
 
 /-- `create_connect`; 3.1.1 [MQTT-3.1.3-7]: a zero-byte client identifier forces CleanSession = 1 -/
@@ -578,7 +579,7 @@ def Engine.buildSettings (e : Engine) (c : Connack) : Settings :=
     subIdsAvailable := c.subIdsAvailable.getD true,
     sharedSubsAvailable := c.sharedSubsAvailable.getD true,
     rejoinedSession := c.sessionPresent,
-    clientId := match c.assignedClientId, o.clientId, e.settings with
+    clientId := match c.assignedClientId, (o.clientId.filter (fun cid => !cid.isEmpty)), e.settings with
       | some a, _, _ => a
       | none, some cid, _ => cid
       | none, none, some s => s.clientId
@@ -905,7 +906,10 @@ def Engine.fileWritten (e : Engine) (id : Nat) (o : Op) : Engine :=
 /-- the time the server has to answer a PINGREQ runs from its transmission: min(ping timeout, K/2) from now -/
 def Engine.armPingDeadline (e : Engine) (o : Op) : Engine :=
   match o.packet, e.settings with
-  | .pingreq, some s => { e with pingDeadline := some (e.now + min e.cfg.pingTimeout (s.serverKeepAlive * 500)) }
+  | .pingreq, some s =>
+    -- ... and so does the keep alive interval to the next ping
+    { e with pingDeadline := some (e.now + min e.cfg.pingTimeout (s.serverKeepAlive * 500)),
+             nextPing := if s.serverKeepAlive > 0 then some (e.now + s.serverKeepAlive * 1000) else e.nextPing }
   | _, _ => e
 
 /-- `on_current_operation_fully_written`; `none` = `unwrap()` panic -/
